@@ -47,10 +47,11 @@ def run(ctx):
     ctx.cov["hooks_present"] = hooks
     case = ctx.replay_case()
     if case:
-        res = vlib.run_driver(ctx, binary, ["-x", case["cfg"]], behaviours=[case["steps"]])
-        s = vlib.handle_driver_results(ctx, res)
         if case.get("hooks") and not hooks:
             raise vlib.Inconclusive("HOOK-MISSING", "the replay file needs the verifhook yield points")
+        args = ["-x", case["cfg"]] + (["-mode", "gno"] if case.get("app") == "gnoland" else [])
+        res = vlib.run_driver(ctx, binary, args, behaviours=[case["steps"]])
+        s = vlib.handle_driver_results(ctx, res)
         ctx.cov.update({"states": 1, "transitions": 1, "traces_validated_against_impl": int(s.get("replays", 0))})
         ctx.sample([x.get("act") for x in case["steps"]])
         return
@@ -82,8 +83,7 @@ def run(ctx):
         replay(ctx, binary, "Commit_code_qe.cfg", "snap=1", "code structure (DB-wrapper and logger gates), snapshots", gno=ng)
     if ctx.tier == "thorough":
         replay(ctx, binary, "Commit_codep_qe.cfg", "snap=1,keep=0,maxver=3", "code structure, KeepRecent=0 (queries racing pruning)")
-        if hooks:
-            replay(ctx, binary, "Commit_code_qe.cfg", "snap=1,keep=-1,maxver=3,main=iavl,mount=nil", "IAVL main store, nil mount")
+        replay(ctx, binary, "Commit_code_qe.cfg", "snap=1,keep=-1,maxver=3,main=iavl,mount=nil", "IAVL main store, nil mount")
     ctx.cov["exhaustive"] = True
     ctx.assumptions += ["block n writes the tag n to both stores, so the height a value came from is read off the value",
                         "model/code agreement on (published height, durable height, snapshot height) is checked after every step; "
